@@ -1992,7 +1992,7 @@ MANIFEST = {
     "design_ref": "DESIGN.md 4/C05",
 }
 FINDINGS = [
-    {"status": "fixed", "key": "forged-constant:nat_eval", "commit": "fixes/C05-3.patch",
+    {"status": "fixed", "key": "forged-constant:nat_eval", "commit": "c59b729",
      "what": "check_proof evaluated trusted macros on goals that are not terms of the theory: nat_eval and const_inequality accepted "
              "|- minus (1::real) 2 = (0::nat) with minus :: real => real => nat (evaluators go by constant names; Theory.check_term was never called)"},
     {"status": "fixed", "key": "wrong-type:nat_eval:real", "commit": "c7e308e",
